@@ -29,12 +29,14 @@ type vLogger struct {
 
 func newVLogger() *vLogger { return &vLogger{baseLogger: logging.Null} }
 
-func (l *vLogger) Error(msg string, kv ...any)          { l.Errors = append(l.Errors, msg+" "+fmt.Sprint(kv...)) }
+func (l *vLogger) Error(msg string, kv ...any) {
+	l.Errors = append(l.Errors, msg+" "+fmt.Sprint(kv...))
+}
 func (l *vLogger) ErrorStatus(msg string, st status.Status, kv ...any) {
 	l.Errors = append(l.Errors, msg+": "+st.String())
 }
-func (l *vLogger) Logger(name string) logging.Logger      { return l }
-func (l *vLogger) WithFields(kv ...any) logging.Logger     { return l }
+func (l *vLogger) Logger(name string) logging.Logger   { return l }
+func (l *vLogger) WithFields(kv ...any) logging.Logger { return l }
 
 // panics returns the error records that report a recovered panic or an internal error.
 func (l *vLogger) bad() []string {
